@@ -464,8 +464,8 @@ def cases(tier):
           DistCase("discrete3", masked=True, history="clone"),
           IPPOMaskRouting(2, 2), IPPOMaskRouting(3, 2), IPPOMaskRouting(2, 2, arrays=True)]
     # PPO level: the action PPO.get_action returns in training mode is the very sample whose log-probability it reports (C14's harness)
-    from .c14_actions import PPOEvalAction
-    cs += [PPOEvalAction(False, True), PPOEvalAction(True, True)]
+    from .c14_actions import PPOEvalAction, IPPOGroupClip
+    cs += [PPOEvalAction(False, True), PPOEvalAction(True, True), IPPOGroupClip(1)]
     if tier == "thorough":
         cs += [DistCase("discrete3", B=3, masked=True), DistCase("multidiscrete23", B=3, masked=True), DistCase("box2", B=3, squash=True), DistCase("box1", squash=True)]
     return cs
